@@ -30,7 +30,11 @@ except Exception:            # pragma: no cover
 
 ID = 'C05'
 COMPONENTS = ['jsonesc', 'manifest']
-THEOREMS = ['C05_esc_table_matches_model', 'C05_escape_valid_refuted']
+THEOREMS = ['C05_esc_table_matches_model', 'C05_key_tables_match_model', 'C05_escape_valid', 'C05_escape_string_json_valid',
+            'C05_unescape_escape', 'C05_manifest_parse_roundtrip', 'C05_manifest_parse_roundtrip_finite',
+            'C05_cli_default_roundtrip', 'C05_ws_erasure', 'C05_builtin_formats_ws', 'C05_toml_basic_string_ok',
+            'C05_python_string_ok', 'C05_safe_toml_plain_sound', 'C05_escape_key_toml_ok', 'C05_nonvacuous_hyps',
+            'C05_nonvacuous_runs']
 ALLOWED_AXIOMS = set()
 
 
@@ -432,6 +436,16 @@ def numtable_field(table, dbl_bits, extra_texts=()):
 RAW_CTL = re.compile('[\x00-\x1f]')
 
 
+def yaml_caveat(strs):
+    """'nonprint': U+FFFE/U+FFFF (outside YAML's c-printable: a finding of its own key);
+       'lb11': U+2028/U+2029 (line breaks in YAML 1.1 only — PyYAML folds them; not a YAML 1.2 issue)"""
+    if any(ord(c) in (0xfffe, 0xffff) for s in strs for c in s):
+        return 'nonprint'
+    if any(ord(c) in (0x2028, 0x2029) for s in strs for c in s):
+        return 'lb11'
+    return None
+
+
 def classify_invalid(text):
     """specific key for a non-JSON output"""
     m = RAW_CTL.search(text)
@@ -559,14 +573,17 @@ def check_escaper(run, impl_exe, model_exe, rng, strs, label='esc'):
         if pyyaml is not None:
             run.evaluations += 1
             ys = s + 'x' if s.endswith('\n') else s
-            try:
-                back = pyyaml.safe_load(parts[6])
-                if back != ys:
-                    run.violation('yaml-string-differs', 'std.manifestYamlDoc(%r) = %r loads as %r' % (ys[:24], parts[6][:40], back), replay)
-            except Exception as e:
-                nonprint = [c for c in ys if ord(c) in (0xfffe, 0xffff) or (ord(c) > 0xffff and False)]
-                key = 'yaml-nonprintable-fffe-ffff' if nonprint else 'yaml-' + classify_invalid(parts[6].replace('\n', ' '))
-                run.violation(key, 'std.manifestYamlDoc(%r) = %r is rejected by a YAML loader (%s)' % (ys[:24], parts[6][:40], str(e).replace('\n', ' ')[:60]), replay)
+            cav = yaml_caveat([ys])
+            if cav == 'lb11':
+                run.count('yaml11_linebreak_skipped')
+            else:
+                try:
+                    back = pyyaml.safe_load(parts[6])
+                    if back != ys:
+                        run.violation('yaml-string-differs', 'std.manifestYamlDoc(%r) = %r loads as %r' % (ys[:24], parts[6][:40], back), replay)
+                except Exception as e:
+                    key = 'yaml-nonprintable-fffe-ffff' if cav == 'nonprint' else 'yaml-' + classify_invalid(parts[6].replace('\n', ' '))
+                    run.violation(key, 'std.manifestYamlDoc(%r) = %r is rejected by a YAML loader (%s)' % (ys[:24], parts[6][:40], str(e).replace('\n', ' ')[:60]), replay)
 
 
 # ---------------------------------------------------------------- part 2: keys (TOML bare / YAML plain)
@@ -622,15 +639,17 @@ def check_keys(run, impl_exe, model_exe, rng, keys):
             implain = not text.startswith('"')
             run.count('yaml_key_plain' if implain else 'yaml_key_quoted')
             okd = None
-            if pyyaml is not None:
+            cav = yaml_caveat([k])
+            if pyyaml is not None and cav != 'lb11':
                 try:
                     okd = pyyaml.safe_load(text) == {k: 1}
                 except Exception:
                     okd = False
                 if not okd and implain:
                     run.violation('yaml-plain-key-roundtrip', 'std.manifestYamlDoc({[%r]: 1}, quote_keys=false) = %r does not load back as that object (YAML 1.1 loader)' % (k[:24], text[:40]), replay)
-                elif not okd and not any(ord(c) in (0xfffe, 0xffff) for c in k):
-                    run.violation('yaml-quoted-key-roundtrip', 'std.manifestYamlDoc({[%r]: 1}) = %r does not load back' % (k[:24], text[:40]), replay)
+                elif not okd:
+                    run.violation('yaml-nonprintable-fffe-ffff' if cav == 'nonprint' else 'yaml-quoted-key-roundtrip',
+                                  'std.manifestYamlDoc({[%r]: 1}) = %r does not load back' % (k[:24], text[:40]), replay)
             if implain != plain and okd is not False:
                 run.violation('yaml-key-correspondence', 'is_safe_yaml_plain(%r): implementation %s / model %s' % (k[:24], implain, plain), replay, concrete=False)
             if implain:
@@ -857,15 +876,19 @@ def check_targets(run, impl_exe, rng, values):
                 run.violation('target-eval-failed:' + suffix, '%s failed: %s' % (srcs[k][:80], st), replay)
                 continue
             strs = strings_of(ev, [])
-            nonprint = any(ord(c) in (0xfffe, 0xffff) for s in strs for c in s)
+            cav = yaml_caveat(strs)
+            nonprint = cav == 'nonprint'
+            if suffix in ('ya', 'ys') and cav == 'lb11':
+                run.count('yaml11_linebreak_skipped')
+                continue
             try:
                 if suffix == 'py':
                     got = ast.literal_eval(text)
-                    ok = py_same(got, want)
+                    ok = py_same(got, want, signed_zero=False)
                 elif suffix == 'pv':
                     tree = ast.parse(text)
                     got = {n.targets[0].id: ast.literal_eval(n.value) for n in tree.body}
-                    ok = py_same(got, want)
+                    ok = py_same(got, want, signed_zero=False)
                 elif suffix == 'ya':
                     if pyyaml is None:
                         continue
